@@ -5,6 +5,7 @@ import json
 import os
 import re
 
+DESC = json.load(open("/verif/seeded/descriptions.json")) if os.path.exists("/verif/seeded/descriptions.json") else {}
 rows = []
 for f in sorted(glob.glob("/verif/seeded/*/meta.json")):
     m = json.load(open(f))
@@ -14,7 +15,7 @@ for f in sorted(glob.glob("/verif/seeded/*/meta.json")):
         notes = open(np).read().strip().replace("\n", " ")
     ok = (m.get("demo_with_change", {}).get("rc") not in (0, None) and m.get("demo_without_change", {}).get("rc") == 0
           and m.get("tests_with_change", {}).get("rc") == 0)
-    rows.append((m["id"], m.get("what", notes)[:230], "yes" if ok else "NO: " + str(m.get("status", "not confirmed")),
+    rows.append((m["id"], (m.get("what") or DESC.get(m["id"]) or notes)[:260], "yes" if ok else "NO: " + str(m.get("status", "not confirmed")),
                  ", ".join(m.get("caught_by") or []) or "-", ", ".join(sorted(m.get("checks", {}))),
                  "; ".join(sorted({s for c in m.get("checks", {}).values() for s in c.get("signatures", [])}))[:160]))
 out = ["## 12. Seeded changes and the checks that catch them", "",
